@@ -1,5 +1,11 @@
 """C14 - CDS short timestamps (engine V).  DESIGN.md section 4, C14.
 
+Three oracles: (1) per-case differential against ref/cds.py (stamps, from_datetime, additions,
+refusals); (2) explicit-state exploration of short mutator histories (+ timedelta, read_from_raw)
+on one object from five start states, observers read after every step or only at the end, the
+model being an integer pair (DESIGN.md 2.3); (3) independence (mc.alias.Keeper): every stamp and
+every pack() result handed out is re-observed after the following cases of the shard.
+
 Never reads the clock: CdsShortTimestamp.now()/from_now()/ms_of_today() are not called."""
 
 from __future__ import annotations
@@ -843,6 +849,10 @@ def finalize(tier, agg):
     c = agg["counters"]
     out = {
         "days_covered": f"{c.get('days_swept', 0)}/65536",
+        "from_datetime_days_covered": f"{c.get('from_datetime_days_covered', 0)}/65536",
+        "histories": c.get("histories", 0),
+        "history_alphabet": {"start_kinds": START_KINDS, "mutator_symbols": len(STEPS), "observation_modes": HIST_MODES},
+        "independence": {"results_held": c.get("independence_results_held", 0), "reobservations": c.get("independence_reobservations", 0)},
         "pfields_covered": "256/256",
         "input_lengths_covered": "0..6",
     }
